@@ -24,6 +24,7 @@ STD_ENUMS = {
     "Result": {"Ok": 0, "Err": 1},
     "ControlFlow": {"Continue": 0, "Break": 1},
     "Ordering": {"Less": -1, "Equal": 0, "Greater": 1},
+    "Bound": {"Included": 0, "Excluded": 1, "Unbounded": 2},
 }
 
 
@@ -781,6 +782,8 @@ class Interp:
                 return v
             if v.kind == "ref":
                 return RefV(to, v.fid, v.local, v.projs)
+            if kind.startswith("PointerCoercion(Unsize") and v.kind == "struct" and "dyn " in to:
+                return v        # Box<T> -> Box<dyn Trait>: a box is its content (see the Box::new model)
         if kind.startswith("PointerCoercion(ReifyFnPointer") or kind.startswith("PointerCoercion(ClosureFnPointer"):
             return v
         raise Refuse("cast kind %s" % kind)
